@@ -1232,6 +1232,11 @@ func (c *Ctx) helperLayout(call *ssa.Call, idx int, at ssa.Instruction, d int) (
 		inner, err = c.LayoutOf(unspill(ret.Results[idx]), ret, d+1)
 		curPath, phiResolve = oldPath, oldPhi
 		if err != nil {
+			// a concatenating helper: acc = init; for _, e := range parts { acc = append(acc, e...) }
+			// with parts its variadic parameter: at the call the pieces are the arguments, in order
+			if l, ok := c.variadicConcatLayout(g, unspill(ret.Results[idx]), call, ret, d); ok {
+				return l, nil, true
+			}
 			return nil, err, true
 		}
 	}
@@ -1261,4 +1266,124 @@ func (c *Ctx) helperLayout(call *ssa.Call, idx int, at ssa.Instruction, d int) (
 		out = append(out, sg)
 	}
 	return out, nil, true
+}
+
+// variadicConcatLayout: see helperLayout. acc is the value g returns.
+func (c *Ctx) variadicConcatLayout(g *ssa.Function, acc ssa.Value, call *ssa.Call, ret *ssa.Return, d int) ([]seg, bool) {
+	phi, ok := acc.(*ssa.Phi)
+	if !ok || len(phi.Edges) != 2 || !g.Signature.Variadic() || len(g.Params) == 0 {
+		return nil, false
+	}
+	parts := g.Params[len(g.Params)-1]
+	var init ssa.Value
+	var step *ssa.Call
+	for _, e := range phi.Edges {
+		if ap, isCall := e.(*ssa.Call); isCall && calleeName(&ap.Call) == "builtin:append" && ap.Call.Args[0] == ssa.Value(phi) {
+			step = ap
+		} else {
+			init = e
+		}
+	}
+	if init == nil || step == nil {
+		return nil, false
+	}
+	// what is appended: an element of the variadic parameter
+	ld, ok := step.Call.Args[1].(*ssa.UnOp)
+	if !ok {
+		return nil, false
+	}
+	ia, ok := ld.X.(*ssa.IndexAddr)
+	if !ok || ia.X != ssa.Value(parts) {
+		return nil, false
+	}
+	// the loop is the range over that parameter: its index is compared with len(parts)
+	ranged := false
+	if refs := ia.Index.Referrers(); refs != nil {
+		for _, ref := range *refs {
+			if bo, isBo := ref.(*ssa.BinOp); isBo && bo.Op == token.LSS && bo.X == ia.Index {
+				if ln, isLen := bo.Y.(*ssa.Call); isLen && calleeName(&ln.Call) == "builtin:len" && ln.Call.Args[0] == ssa.Value(parts) {
+					ranged = true
+				}
+			}
+		}
+	}
+	if !ranged {
+		return nil, false
+	}
+	// the initial value, in terms of g's parameters, with the arguments written in
+	oldPath, oldPhi := curPath, phiResolve
+	curPath, phiResolve = nil, nil
+	initL, err := c.LayoutOf(init, ret, d+1)
+	curPath, phiResolve = oldPath, oldPhi
+	if err != nil {
+		return nil, false
+	}
+	var out []seg
+	for _, sg := range initL {
+		pi := -1
+		for i, p := range g.Params {
+			if sg.src == p.Name() {
+				pi = i
+			}
+		}
+		if pi < 0 || pi >= len(call.Call.Args) {
+			out = append(out, sg)
+			continue
+		}
+		if sg.vari {
+			al, e := c.LayoutOf(call.Call.Args[pi], call, d+1)
+			if e != nil {
+				return nil, false
+			}
+			out = append(out, al...)
+			continue
+		}
+		sg.src = srcDesc(call.Call.Args[pi])
+		out = append(out, sg)
+	}
+	// the variadic arguments at the call: a slice of a local array with one store per index
+	va := call.Call.Args[len(g.Params)-1]
+	sl, ok := va.(*ssa.Slice)
+	if !ok {
+		if isNilConst(va) {
+			return out, true
+		}
+		return nil, false
+	}
+	al, ok := sl.X.(*ssa.Alloc)
+	if !ok {
+		return nil, false
+	}
+	pieces := map[int64]ssa.Value{}
+	max := int64(-1)
+	for _, ref := range *al.Referrers() {
+		ia2, isIA := ref.(*ssa.IndexAddr)
+		if !isIA {
+			continue
+		}
+		k, isK := constInt(ia2.Index)
+		if !isK {
+			return nil, false
+		}
+		for _, r2 := range *ia2.Referrers() {
+			if st, isSt := r2.(*ssa.Store); isSt && st.Addr == ssa.Value(ia2) {
+				pieces[k] = st.Val
+				if k > max {
+					max = k
+				}
+			}
+		}
+	}
+	for i := int64(0); i <= max; i++ {
+		pv, has := pieces[i]
+		if !has {
+			return nil, false
+		}
+		l, e := c.LayoutOf(pv, call, d+1)
+		if e != nil {
+			return nil, false
+		}
+		out = append(out, l...)
+	}
+	return out, true
 }
